@@ -499,6 +499,12 @@ func applicable(change, arg, start, end string) bool {
 	return true
 }
 
+// Splits and merges use TiKV's epoch rules (child inherits the parent's new
+// version; merged version = max+1) through the white-box helpers: mocktikv's
+// own Split/Merge hand out versions that can be LOWER than those of regions
+// that covered the range before, which the client's region cache (correctly,
+// for a real cluster) refuses as stale information and then retries forever.
+//
 // apply performs one topology change on the target region; false if it is not
 // applicable in the current layout (the script is then discarded, not counted).
 func (j *injector) apply(f Fault, req *tikvrpc.Request, firstKey string) bool {
@@ -517,21 +523,21 @@ func (j *injector) apply(f Fault, req *tikvrpc.Request, firstKey string) bool {
 				newLeader = newPeers[i]
 			}
 		}
-		c.SplitRaw(t.Id, c.AllocID(), []byte(f.Arg), newPeers, newLeader)
+		c.VerifSplitRaw(t.Id, c.AllocID(), []byte(f.Arg), newPeers, newLeader)
 		return true
 	case "mergeR":
 		n, _, _, _ := c.GetRegionByKey(t.EndKey)
 		if n == nil {
 			return false
 		}
-		c.Merge(t.Id, n.Id)
+		c.VerifMerge(t.Id, n.Id)
 		return true
 	case "mergeL":
 		l, _, _, _ := c.GetPrevRegionByKey(t.StartKey)
 		if l == nil {
 			return false
 		}
-		c.Merge(l.Id, t.Id)
+		c.VerifMerge(l.Id, t.Id)
 		return true
 	case "leader":
 		for _, p := range t.Peers {
@@ -605,7 +611,7 @@ func newEnv(layout []string) *env {
 	for _, k := range layout {
 		r, _, _, _ := cluster.GetRegionByKey([]byte(k))
 		peers := cluster.AllocIDs(len(r.Peers))
-		cluster.SplitRaw(r.Id, cluster.AllocID(), []byte(k), peers, peers[0])
+		cluster.VerifSplitRaw(r.Id, cluster.AllocID(), []byte(k), peers, peers[0])
 	}
 	pd := mocktikv.NewPDClient(cluster)
 	inj := &injector{inner: mocktikv.NewRPCClient(cluster, st.MVCCLevelDB, nil), cluster: cluster}
@@ -1057,6 +1063,7 @@ var (
 	outMu       sync.Mutex
 	outcomes    = map[string]struct{}{}
 	kindCount   = map[string]int64{}
+	changeCount = map[string]int64{}
 )
 
 var readOnly = map[string]bool{"Get": true, "BatchGet": true, "Scan": true, "RScan": true, "Checksum": true}
@@ -1139,6 +1146,9 @@ func runSeq(layout []string, steps []Step) (out runOut) {
 			outMu.Lock()
 			outcomes[oc] = struct{}{}
 			kindCount[st.Op.K]++
+			for _, f := range st.Faults {
+				changeCount[f.Change+" before "+f.Cmd]++
+			}
 			outMu.Unlock()
 			samples.Add(func() any {
 				return map[string]any{"layout": layout, "steps": steps, "rpcs_of_last_call": len(trace), "outcome": oc, "layout_after": e.layoutKey()}
@@ -1301,7 +1311,9 @@ func replayFile(path string) {
 var stopProf = func() {}
 
 func main() {
-	log.SetLevel(zapcore.FatalLevel)
+	if os.Getenv("C11_LOG") == "" {
+		log.SetLevel(zapcore.FatalLevel)
+	}
 	if pf := os.Getenv("C11_PROF"); pf != "" {
 		f, _ := os.Create(pf)
 		pprof.StartCPUProfile(f)
@@ -1401,6 +1413,10 @@ func main() {
 	for k, v := range kindCount {
 		kc[k] = v
 	}
+	cc := map[string]int64{}
+	for k, v := range changeCount {
+		cc[k] = v
+	}
 	outMu.Unlock()
 	run.Finish(ev.Coverage{
 		"states":                        len(visited),
@@ -1417,6 +1433,7 @@ func main() {
 		"history_replays_diverged":      divergedN.Load(),
 		"new_states_per_depth":          levelStates,
 		"transitions_per_op_kind":       kc,
+		"deviations_per_change_and_rpc": cc,
 		"max_depth":                     maxDepth,
 		"alphabet_size":                 len(ops),
 		"rule": "BFS over call sequences of rawkv.Client from the empty store on every initial layout (all subsets of split keys {b,c}; 2 stores); every state is expanded by the whole alphabet, each call without deviation and with every script of <= F topology changes " +
